@@ -4,6 +4,8 @@ O1  every wire index is renumbered in both renumbering passes (sweep and final n
 O2  the NOT encoding (xor with constant 1) is the only special case of the final numbering; constants become the two first gates
 O3  the de-duplication switch only switches the cache
 O4  sibling consistency of the xor-cancellation rewrites: the operand tested for cancellation is not the one returned
+O5  the folding table of optimize_and / optimize_xor (x&0, x&1, x&x, x^0, x^x) returns the right operand
+O6  `negated` records exactly (operand, new gate) and (new gate, operand) under the `== 1` test of the other operand
 """
 from .. import mir
 from ..core import AnchorMissing, Finding, RuleResult
@@ -289,5 +291,146 @@ def rule_o4(ctx):
     return res
 
 
+FOLD_TABLE = {
+    "circuit::CircuitBuilder::optimize_and": {("x", 0): {"const 0"}, ("y", 0): {"const 0"}, ("x", 1): {"y"}, ("y", 1): {"x"}, ("x", "y"): {"x", "y"},
+                                              ("!x", "y"): {"const 0"}, ("!y", "x"): {"const 0"}},
+    "circuit::CircuitBuilder::optimize_xor": {("x", 0): {"y"}, ("y", 0): {"x"}, ("x", "y"): {"const 0"},
+                                              ("!x", "y"): {"const 1"}, ("!y", "x"): {"const 1"}},
+}
+
+
+def rule_o5(ctx):
+    res = RuleResult("O5", "constant / idempotence folding returns the algebraically right operand")
+    for fid, table in FOLD_TABLE.items():
+        body = ctx.body(fid)
+
+        def who(op):
+            if op["k"] == "const":
+                return op.get("val")
+            names = set()
+            for (r, p) in body.trace_operand(op):
+                if r == ("arg", 2) and not p:
+                    names.add("x")
+                elif r == ("arg", 3) and not p:
+                    names.add("y")
+                elif r[0] == "call" and mir.last_seg(r[2] or "") == "get" and p == ("as Some", "0"):
+                    t = body.term(r[1])
+                    if any(pp and pp[-1] == "negated" for (_, pp) in body.trace_operand(t["args"][0])):
+                        k = {("x" if rr == ("arg", 2) else "y") for (rr, pp) in body.trace_operand(t["args"][1]) if rr in (("arg", 2), ("arg", 3)) and not pp}
+                        if len(k) == 1:
+                            names.add("!" + next(iter(k)))
+            return next(iter(names)) if len(names) == 1 else None
+        seen = {}
+        for b, blk in enumerate(body.blocks):
+            for st in blk["stmts"]:
+                if st["k"] == "assign" and st["rv"]["k"] == "binop" and st["rv"]["op"] == "Eq":
+                    l, r = who(st["rv"]["l"]), who(st["rv"]["r"])
+                    key = None
+                    if l in ("x", "y") and r in (0, 1):
+                        key = (l, r)
+                    elif r in ("x", "y") and l in (0, 1):
+                        key = (r, l)
+                    elif {l, r} == {"x", "y"}:
+                        key = ("x", "y")
+                    elif {l, r} in ({"!x", "y"}, {"!y", "x"}):
+                        key = tuple(sorted((l, r)))
+                    if key is None or key not in table:
+                        continue
+                    # follow the true edge through gotos to the returned value
+                    d = st["place"]["l"]
+                    for x in range(body.n):
+                        tt = body.term(x)
+                        if tt and tt["k"] == "switch" and tt["discr"]["k"] in ("copy", "move") and tt["discr"]["place"]["l"] == d:
+                            false_t = {tg for v, tg in tt["targets"] if v == 0}
+                            for s_ in body.succs(x):
+                                if s_ in false_t:
+                                    continue
+                                cur = s_
+                                val = None
+                                for _ in range(6):
+                                    for st2 in body.blocks[cur]["stmts"]:
+                                        if st2["k"] == "assign" and st2["place"]["l"] == 0 and st2["rv"]["k"] == "aggregate" and st2["rv"].get("variant") == "Some":
+                                            o = st2["rv"]["ops"][0]
+                                            w = who(o)
+                                            val = ("const %s" % w) if o["k"] == "const" else w
+                                    nx = body.succs(cur)
+                                    if val is not None or len(nx) != 1 or body.term(cur)["k"] != "goto":
+                                        break
+                                    cur = nx[0]
+                                seen[key] = (val, st["sp"])
+        for key, want in table.items():
+            if key not in seen:
+                continue  # existence of the tests is U2 (C15); here only the returned value
+            val, sp = seen[key]
+            if val in want:
+                res.ok({"function": mir.last_seg(fid), "case": "%s == %s" % key, "returns": val})
+            else:
+                res.bad(Finding("O5", fid, "case %s == %s returns %s" % (key[0], key[1], val),
+                                "folding %s with %s == %s must return %s" % ("AND" if fid.endswith("and") else "XOR", key[0], key[1], " or ".join(sorted(want))), sp))
+    if res.obligations < 6 and not res.findings:
+        raise AnchorMissing("O5: found only %d folding cases in optimize_and / optimize_xor" % res.obligations)
+    return res
+
+
+def rule_o6(ctx):
+    res = RuleResult("O6", "the negation bookkeeping records (operand <-> new gate) for xor-with-constant-1 only")
+    fid = "circuit::CircuitBuilder::push_xor"
+    body = ctx.body(fid)
+    ins = []
+    for b, t in body.calls():
+        if mir.last_seg(mir.callee(t) or "") == "insert" and any(p and p[-1] == "negated" for (r, p) in body.trace_operand(t["args"][0])):
+            def cls(op):
+                out = set()
+                for (r, p) in body.trace_operand(op):
+                    if r == ("arg", 2) and not p:
+                        out.add("x")
+                    elif r == ("arg", 3) and not p:
+                        out.add("y")
+                    elif r[0] == "call" and mir.last_seg(r[2] or "") == "push_gate":
+                        out.add("new")
+                    else:
+                        out.add("?")
+                return next(iter(out)) if len(out) == 1 else "?"
+            ins.append((b, cls(t["args"][1]), cls(t["args"][2]), t["sp"]))
+    if (len(ins) < 4) and not res.findings:
+        raise AnchorMissing("O6: expected four insertions into `negated` in push_xor, found %d" % len(ins))
+    # which test guards each insert: x == 1 -> (y, new), (new, y);  y == 1 -> (x, new), (new, x)
+    tests = {}
+    for b, blk in enumerate(body.blocks):
+        for st in blk["stmts"]:
+            if st["k"] == "assign" and st["rv"]["k"] == "binop" and st["rv"]["op"] == "Eq":
+                l, r = st["rv"]["l"], st["rv"]["r"]
+                c = r if r["k"] == "const" else (l if l["k"] == "const" else None)
+                o = l if c is r else r
+                if c is None or c.get("val") != 1:
+                    continue
+                who = {("x" if rr == ("arg", 2) else "y") for (rr, pp) in body.trace_operand(o) if rr in (("arg", 2), ("arg", 3)) and not pp}
+                if len(who) != 1:
+                    continue
+                d = st["place"]["l"]
+                for x in range(body.n):
+                    tt = body.term(x)
+                    if tt and tt["k"] == "switch" and tt["discr"]["k"] in ("copy", "move") and tt["discr"]["place"]["l"] == d:
+                        false_t = {tg for v, tg in tt["targets"] if v == 0}
+                        for s_ in body.succs(x):
+                            if s_ not in false_t:
+                                tests.setdefault(next(iter(who)), set()).add((x, s_))
+    from .C02 import _dominated_by_edges
+    for (b, k, v, sp) in ins:
+        guard = None
+        for who, edges in tests.items():
+            if _dominated_by_edges(body, edges, b):
+                guard = who
+        other = {"x": "y", "y": "x"}.get(guard)
+        if guard is None:
+            res.bad(Finding("O6", fid, "negation recorded without the `== 1` test", "a pair is entered into `negated` although the new gate is not a NOT", sp))
+        elif {k, v} == {other, "new"}:
+            res.ok({"guard": "%s == 1" % guard, "records": "(%s, %s)" % (k, v)})
+        else:
+            res.bad(Finding("O6", fid, "wrong pair recorded under %s == 1" % guard,
+                            "under %s == 1 the new gate is NOT %s; recorded (%s, %s)" % (guard, other, k, v), sp))
+    return res
+
+
 def run(ctx):
-    return ctx.run_rules([rule_o1, rule_o2, rule_o3, rule_o4])
+    return ctx.run_rules([rule_o1, rule_o2, rule_o3, rule_o4, rule_o5, rule_o6])
